@@ -864,11 +864,17 @@ class FileSet:
         gc.collect()
 
         # We do not want to have any None as data
-        files, data = zip(*[
+        results = [
             [info, content]
             for info, content in results
             if content is not None
-        ])
+        ]
+
+        # Maybe no file could be read at all (error_to_warning)?
+        if results:
+            files, data = zip(*results)
+        else:
+            files, data = [], []
 
         if return_info:
             return list(files), list(data)
